@@ -757,3 +757,344 @@ Proof.
   - intros E D. rewrite (eval_in_domain p e W S D) in E. discriminate.
   - apply eval_not_in_domain; assumption.
 Qed.
+
+(** ** Which outcomes [eval RInst] can produce (no [wf], no [supplies] needed) *)
+
+(* a value or a DomainError *)
+Definition vd {A} (o : outcome A) : Prop := (exists r, o = Val r) \/ o = DomErr.
+
+Lemma vd_Val {A} (a : A) : vd (Val a).
+Proof. left. exists a. reflexivity. Qed.
+Lemma vd_DomErr {A} : vd (@DomErr A).
+Proof. right. reflexivity. Qed.
+
+Lemma vd_step_divide x y : vd (_ <- verify_divide RInst x y ;; mf_divide RInst x y).
+Proof.
+  destruct (Req_EM_T y 0) as [Z|Z].
+  - rewrite step_divide_bad by assumption. apply vd_DomErr.
+  - rewrite step_divide_ok by assumption. apply vd_Val.
+Qed.
+
+Lemma vd_step_power x y : vd (_ <- verify_power RInst x y ;; mf_power RInst x y).
+Proof.
+  destruct (Rlt_dec 0 x) as [Z|Z].
+  - rewrite step_power_ok by assumption. apply vd_Val.
+  - rewrite step_power_bad by assumption. apply vd_DomErr.
+Qed.
+
+Lemma vd_step_recip x : vd (_ <- verify_reciprocal RInst x ;; mf_reciprocal RInst x).
+Proof.
+  destruct (Req_EM_T x 0) as [Z|Z].
+  - rewrite step_recip_bad by assumption. apply vd_DomErr.
+  - rewrite step_recip_ok by assumption. apply vd_Val.
+Qed.
+
+Lemma vd_step_nth_root n x : vd (_ <- verify_nth_root RInst x n ;; mf_nth_root RInst x n).
+Proof.
+  destruct (root_dom_dec n x) as [Z|Z].
+  - rewrite step_nth_root_ok by assumption. apply vd_Val.
+  - rewrite step_nth_root_bad by assumption. apply vd_DomErr.
+Qed.
+
+Lemma mf_exponential_bad x b : ~ 0 < b -> mf_exponential RInst x b = DomErr.
+Proof.
+  intro H. unfold mf_exponential, nleb. simpl.
+  destruct (Req_EM_T b 0) as [E|E]; rbool; [rewrite orb_true_r; reflexivity|].
+  assert (H1 : b < 0) by lra. rbool. reflexivity.
+Qed.
+
+Lemma vd_mf_exponential x b : vd (mf_exponential RInst x b).
+Proof.
+  destruct (Rlt_dec 0 b) as [Z|Z].
+  - rewrite mf_exponential_R by assumption. apply vd_Val.
+  - rewrite mf_exponential_bad by assumption. apply vd_DomErr.
+Qed.
+
+Lemma mf_logarithm_bad_base x b : ~ 0 < b \/ b = 1 -> mf_logarithm RInst x b = DomErr.
+Proof.
+  intro H. unfold mf_logarithm, nleb. simpl.
+  destruct (Rlt_dec 0 b) as [P|P].
+  - destruct H as [H|H]; [contradiction|].
+    assert (H0 : b <> 0) by lra. assert (H1 : ~ b < 0) by lra. rbool. reflexivity.
+  - destruct (Req_EM_T b 0) as [E|E]; rbool; [rewrite orb_true_r; reflexivity|].
+    assert (H1 : b < 0) by lra. rbool. reflexivity.
+Qed.
+
+Lemma vd_step_log x b : vd (_ <- verify_logarithm RInst x ;; mf_logarithm RInst x b).
+Proof.
+  destruct (Rlt_dec 0 x) as [Z|Z].
+  - destruct (Rlt_dec 0 b) as [Hb|Hb].
+    + destruct (Req_EM_T b 1) as [E|E].
+      * assert (H2 : x <> 0) by lra. assert (H3 : ~ x < 0) by lra.
+        unfold verify_logarithm. simpl. rbool. cbn [bind].
+        rewrite mf_logarithm_bad_base by (right; assumption). apply vd_DomErr.
+      * rewrite step_log_ok by assumption. apply vd_Val.
+    + assert (H2 : x <> 0) by lra. assert (H3 : ~ x < 0) by lra.
+      unfold verify_logarithm. simpl. rbool. cbn [bind].
+      rewrite mf_logarithm_bad_base by (left; assumption). apply vd_DomErr.
+  - rewrite step_log_bad by assumption. apply vd_DomErr.
+Qed.
+
+(* a value (then every variable was supplied), a DomainError, or CoordinateMissing (then some
+   variable was not supplied); never another Python exception *)
+Definition eval_shape_at (p : point R) (e : expr R) : Prop :=
+  ((exists r, evalR p e = Val r) /\ supplies p e) \/
+  evalR p e = DomErr \/
+  (evalR p e = CoordMissing /\ ~ supplies p e).
+
+Lemma eval_list_shape p l :
+  Forall (eval_shape_at p) l ->
+  ((exists vs, sequence (map (evalR p) l) = Val vs) /\ Forall (supplies p) l) \/
+  sequence (map (evalR p) l) = DomErr \/
+  (sequence (map (evalR p) l) = CoordMissing /\ ~ Forall (supplies p) l).
+Proof.
+  induction 1 as [|a r Ha Hr IH].
+  - left. split; [exists []; reflexivity|constructor].
+  - cbn [map sequence]. destruct Ha as [[[x Ea] Sa]|[Ea|[Ea Sa]]]; rewrite Ea; cbn [bind].
+    + destruct IH as [[[vs Er] Sr]|[Er|[Er Sr]]]; rewrite Er; cbn [bind].
+      * left. split; [exists (x :: vs); reflexivity|constructor; assumption].
+      * right. left. reflexivity.
+      * right. right. split; [reflexivity|]. intro H. inversion H; subst. contradiction.
+    + right. left. reflexivity.
+    + right. right. split; [reflexivity|]. intro H. inversion H; subst. contradiction.
+Qed.
+
+Lemma shape_nary p l (k : list R -> R) e' :
+  Forall (eval_shape_at p) l ->
+  (supplies p e' <-> Forall (supplies p) l) ->
+  evalR p e' = (vs <- sequence (map (evalR p) l) ;; Val (k vs)) ->
+  eval_shape_at p e'.
+Proof.
+  intros HF HS HE. unfold eval_shape_at. rewrite HE, HS.
+  destruct (eval_list_shape p l HF) as [[[vs E] S]|[E|[E S]]]; rewrite E; cbn [bind].
+  - left. split; [exists (k vs); reflexivity|assumption].
+  - right. left. reflexivity.
+  - right. right. split; [reflexivity|assumption].
+Qed.
+
+Lemma shape_unary p a (k : R -> outcome R) e' :
+  eval_shape_at p a -> (forall x, vd (k x)) ->
+  (supplies p e' <-> supplies p a) ->
+  evalR p e' = (x <- evalR p a ;; k x) ->
+  eval_shape_at p e'.
+Proof.
+  intros Ha Hk HS HE. unfold eval_shape_at. rewrite HE, HS.
+  destruct Ha as [[[x Ea] Sa]|[Ea|[Ea Sa]]]; rewrite Ea; cbn [bind].
+  - destruct (Hk x) as [[r E]|E]; rewrite E.
+    + left. split; [exists r; reflexivity|assumption].
+    + right. left. reflexivity.
+  - right. left. reflexivity.
+  - right. right. split; [reflexivity|assumption].
+Qed.
+
+Lemma shape_binary p a b (k : R -> R -> outcome R) e' :
+  eval_shape_at p a -> eval_shape_at p b -> (forall x y, vd (k x y)) ->
+  (supplies p e' <-> supplies p a /\ supplies p b) ->
+  evalR p e' = (x <- evalR p a ;; y <- evalR p b ;; k x y) ->
+  eval_shape_at p e'.
+Proof.
+  intros Ha Hb Hk HS HE. unfold eval_shape_at. rewrite HE, HS.
+  destruct Ha as [[[x Ea] Sa]|[Ea|[Ea Sa]]]; rewrite Ea; cbn [bind].
+  - destruct Hb as [[[y Eb] Sb]|[Eb|[Eb Sb]]]; rewrite Eb; cbn [bind].
+    + destruct (Hk x y) as [[r E]|E]; rewrite E.
+      * left. split; [exists r; reflexivity|split; assumption].
+      * right. left. reflexivity.
+    + right. left. reflexivity.
+    + right. right. split; [reflexivity|tauto].
+  - right. left. reflexivity.
+  - right. right. split; [reflexivity|tauto].
+Qed.
+
+Theorem eval_shape : forall p e, eval_shape_at p e.
+Proof.
+  intros p e. induction e as
+    [c|x|l IH|l IH|a b IHa IHb|a b IHa IHb|a b IHa IHb|a IHa|a IHa|a IHa|a IHa
+    |a n IHa|a n IHa|a b IHa|a b IHa] using expr_ind'.
+  - left. split; [exists c; reflexivity|apply supplies_Const].
+  - unfold eval_shape_at. rewrite eval_Var, supplies_Var. unfold coordinate.
+    destruct (lookup x p) as [v|].
+    + left. split; [exists v; reflexivity|discriminate].
+    + right. right. split; [reflexivity|]. intro H. apply H. reflexivity.
+  - exact (shape_nary p l (mf_add RInst) _ IH (supplies_Add p l) (eval_Add RInst p l)).
+  - exact (shape_nary p l (mf_multiply RInst) _ IH (supplies_Mul p l) (eval_Mul RInst p l)).
+  - exact (shape_binary p a b (fun x y => Val (mf_minus RInst x y)) _ IHa IHb
+             (fun x y => vd_Val _) (supplies_Minus p a b) (eval_Minus RInst p a b)).
+  - exact (shape_binary p a b _ _ IHa IHb vd_step_divide
+             (supplies_Divide p a b) (eval_Divide RInst p a b)).
+  - exact (shape_binary p a b _ _ IHa IHb vd_step_power
+             (supplies_Power p a b) (eval_Power RInst p a b)).
+  - exact (shape_unary p a (fun x => Val (mf_negation RInst x)) _ IHa
+             (fun x => vd_Val _) (supplies_Neg p a) (eval_Neg RInst p a)).
+  - exact (shape_unary p a _ _ IHa vd_step_recip (supplies_Recip p a) (eval_Recip RInst p a)).
+  - exact (shape_unary p a _ _ IHa (fun x => vd_Val (sin x))
+             (supplies_Sin p a) (eval_Sin RInst p a)).
+  - exact (shape_unary p a _ _ IHa (fun x => vd_Val (cos x))
+             (supplies_Cos p a) (eval_Cos RInst p a)).
+  - exact (shape_unary p a _ _ IHa (fun x => vd_Val (x ^ Pos.to_nat n))
+             (supplies_NthPow p a n) (eval_NthPow RInst p a n)).
+  - exact (shape_unary p a _ _ IHa (vd_step_nth_root n)
+             (supplies_NthRoot p a n) (eval_NthRoot RInst p a n)).
+  - exact (shape_unary p a _ _ IHa (fun x => vd_mf_exponential x b)
+             (supplies_Exp p a b) (eval_Exp RInst p a b)).
+  - exact (shape_unary p a _ _ IHa (fun x => vd_step_log x b)
+             (supplies_Log p a b) (eval_Log RInst p a b)).
+Qed.
+
+(** the eval part of C14_no_missing *)
+Lemma eval_no_missing : forall p e, supplies p e -> evalR p e <> CoordMissing.
+Proof.
+  intros p e S E. destruct (eval_shape p e) as [[[r Er] _]|[Er|[_ NS]]].
+  - rewrite Er in E. discriminate.
+  - rewrite Er in E. discriminate.
+  - contradiction.
+Qed.
+
+(** the eval part of C17_no_pyerr (holds for every tree and every point) *)
+Lemma eval_no_pyerr_gen : forall p e k, evalR p e <> PyErr k.
+Proof.
+  intros p e k E. destruct (eval_shape p e) as [[[r Er] _]|[Er|[Er _]]];
+    rewrite Er in E; discriminate.
+Qed.
+
+Lemma eval_no_pyerr : forall p e k, wfR e -> evalR p e <> PyErr k.
+Proof. intros p e k _. apply eval_no_pyerr_gen. Qed.
+
+Lemma eval_Val_supplies p e r : evalR p e = Val r -> supplies p e.
+Proof.
+  intro E. destruct (eval_shape p e) as [[_ S]|[Er|[Er _]]]; [assumption| |];
+    rewrite Er in E; discriminate.
+Qed.
+
+Theorem eval_missing_not_val : C14_missing_not_val.
+Proof. intros p e NS r E. apply NS. exact (eval_Val_supplies p e r E). Qed.
+
+(** ** Expression.at(number) *)
+Lemma In_var_names (e : expr R) x : In x (vars e) <-> In x (var_names e).
+Proof. unfold var_names. symmetry. apply nodup_In. Qed.
+
+Theorem at_number_sound : C01_at_number.
+Proof.
+  intros e x Hlen. unfold at_number, the_single_variable_name.
+  destruct (var_names e) as [|v [|w r]] eqn:E.
+  - exists whatever. split; [reflexivity|]. intros y Hy. exfalso.
+    apply In_var_names in Hy. rewrite E in Hy. contradiction.
+  - exists v. split; [reflexivity|]. intros y Hy.
+    apply In_var_names in Hy. rewrite E in Hy. destruct Hy as [<-|[]].
+    cbn [lookup]. unfold name_eqb. rewrite Pos.eqb_refl. discriminate.
+  - cbn [length] in Hlen. lia.
+Qed.
+
+Theorem number_accepted : C14_number_accepted.
+Proof.
+  intros e x. unfold at_number, derivative_variable, the_single_variable_name.
+  destruct (var_names e) as [|v [|w r]]; cbn [length]; split; split; intro H;
+    try lia; try discriminate; try (exfalso; apply H; reflexivity).
+Qed.
+
+(** ** The domain is decidable (in Prop) in every environment.
+    (Every node-local condition is decidable by [Req_EM_T]/[Rlt_dec], which rest on the
+    classical real-number axioms anyway; [classic] is used directly.) *)
+Lemma InDomain_dec : forall rho (e : expr R), InDomain rho e \/ ~ InDomain rho e.
+Proof. intros rho e. apply Classical_Prop.classic. Qed.
+
+(** ** The n-ary nodes: what the evaluated argument list is *)
+Lemma eval_sequence_Val p (l : list (expr R)) :
+  Forall wfR l -> Forall (supplies p) l -> Forall (InDomain (env_of p)) l ->
+  sequence (map (evalR p) l) = Val (map (denote (env_of p)) l).
+Proof.
+  intros W S D. apply sequence_map_Val.
+  rewrite Forall_forall in *. intros e He. apply eval_in_domain; auto.
+Qed.
+
+Lemma eval_sequence_DomErr p (l : list (expr R)) :
+  Forall wfR l -> Forall (supplies p) l -> ~ Forall (InDomain (env_of p)) l ->
+  sequence (map (evalR p) l) = DomErr.
+Proof.
+  intros W S D.
+  assert (F : Forall (eval_char_at p) l).
+  { rewrite Forall_forall in *. intros e He. apply eval_char; auto. }
+  destruct (eval_list_char p l F) as [[D' _]|[_ E]]; [contradiction|assumption].
+Qed.
+
+Lemma Forall2_In_l {A B} (P : A -> B -> Prop) l l' a :
+  Forall2 P l l' -> In a l -> exists b, P a b.
+Proof.
+  induction 1 as [|x y r r' Hxy Hr IH]; intros [].
+  - subst. exists y. assumption.
+  - apply IH. assumption.
+Qed.
+
+(* a value of the list of arguments: every argument is supplied, in domain (under wf), and the
+   values are the denotations *)
+Lemma eval_sequence_Val_inv p (l : list (expr R)) vs :
+  Forall wfR l -> sequence (map (evalR p) l) = Val vs ->
+  Forall (supplies p) l /\ Forall (InDomain (env_of p)) l /\ vs = map (denote (env_of p)) l.
+Proof.
+  intros W E.
+  assert (S : Forall (supplies p) l).
+  { apply sequence_map_Val_inv in E. apply Forall_forall. intros e He.
+    destruct (Forall2_In_l _ _ _ e E He) as [v Hv]. exact (eval_Val_supplies p e v Hv). }
+  split; [assumption|].
+  assert (F : Forall (eval_char_at p) l).
+  { rewrite Forall_forall in *. intros e He. apply eval_char; auto. }
+  destruct (eval_list_char p l F) as [[D E']|[_ E']]; rewrite E' in E; [|discriminate].
+  injection E as <-. split; [assumption|reflexivity].
+Qed.
+
+(** ** Non-vacuity: the premises hold on non-trivial trees, and each outcome occurs *)
+Local Notation ex_e :=
+  (Divide (Mul [Var 1%positive; Const 2; Log (Exp (Var 1%positive) 2) 10])
+          (NthRoot (Add [Var 2%positive; Const 1]) 2)).
+Local Notation ex_p := [(1%positive, 3); (2%positive, 4)].
+
+Example eval_sound_nonvacuous :
+  wfR ex_e /\ supplies ex_p ex_e /\ InDomain (env_of ex_p) ex_e.
+Proof.
+  split; [|split].
+  - cbn [wf fold_right].
+    change (nltb RInst (n0 RInst) ?b) with (Rltb 0 b).
+    change (neqb RInst ?b (n1 RInst)) with (Reqb b 1).
+    repeat split; try (apply Rltb_true; lra). apply Reqb_false. lra.
+  - intros y Hy. cbn in Hy.
+    destruct Hy as [<-|[<-|[<-|[]]]]; cbn; discriminate.
+  - cbn [InDomain fold_right denote]. unfold env_of. cbn [lookup name_eqb Pos.eqb].
+    split; [|split].
+    + repeat split. apply Rpower_pos.
+    + split; [repeat split|]. right. split; [lra|intros _; lra].
+    + apply root_nonzero. lra.
+Qed.
+
+Example eval_domerr_nonvacuous :
+  wfR (Recip (Var 1%positive)) /\ supplies [(1%positive, 0)] (Recip (Var 1%positive)) /\
+  ~ InDomain (env_of [(1%positive, 0)]) (Recip (Var 1%positive)) /\
+  evalR [(1%positive, 0)] (Recip (Var 1%positive)) = DomErr.
+Proof.
+  assert (W : wfR (Recip (Var 1%positive))) by exact I.
+  assert (S : supplies [(1%positive, 0)] (Recip (Var 1%positive))).
+  { intros y [<-|[]]. cbn. discriminate. }
+  assert (D : ~ InDomain (env_of [(1%positive, 0)]) (Recip (Var 1%positive))).
+  { cbn [InDomain denote]. unfold env_of. cbn [lookup name_eqb Pos.eqb]. intros [_ H].
+    apply H. reflexivity. }
+  repeat split; try assumption. apply eval_not_in_domain; assumption.
+Qed.
+
+Example eval_missing_nonvacuous :
+  ~ supplies [(1%positive, 0)] (Add [Var 1%positive; Var 2%positive]) /\
+  evalR [(1%positive, 0)] (Add [Var 1%positive; Var 2%positive]) = CoordMissing.
+Proof.
+  split; [|reflexivity].
+  intro S. apply (S 2%positive); [right; left; reflexivity|reflexivity].
+Qed.
+
+Example at_number_nonvacuous :
+  (List.length (var_names (Mul [Var 5%positive; Sin (Var 5%positive)] : expr R)) <= 1)%nat.
+Proof. cbn. lia. Qed.
+
+Print Assumptions eval_total.
+Print Assumptions eval_sound.
+Print Assumptions eval_domerr_iff.
+Print Assumptions at_number_sound.
+Print Assumptions eval_missing_not_val.
+Print Assumptions number_accepted.
+Print Assumptions eval_no_missing.
+Print Assumptions eval_no_pyerr.
